@@ -84,6 +84,27 @@ func StringBatch(names []string, vals []string) arrow.RecordBatch {
 	return rb
 }
 
+// StringBatchN builds an n-row batch of string columns (rows[i][j] = row i, column j).
+func StringBatchN(names []string, rows [][]string) arrow.RecordBatch {
+	mem := memory.NewGoAllocator()
+	fields := make([]arrow.Field, len(names))
+	cols := make([]arrow.Array, len(names))
+	for j, n := range names {
+		fields[j] = arrow.Field{Name: n, Type: arrow.BinaryTypes.String}
+		b := array.NewStringBuilder(mem)
+		for _, r := range rows {
+			b.Append(r[j])
+		}
+		cols[j] = b.NewArray()
+		b.Release()
+	}
+	rb := array.NewRecordBatch(arrow.NewSchema(fields, nil), cols, int64(len(rows)))
+	for _, c := range cols {
+		c.Release()
+	}
+	return rb
+}
+
 // Int64Batch builds a batch with one int column named name (type t is int64 or
 // int32 for castable inputs).
 func Int64Batch(name string, vals []int64, as32 bool) arrow.RecordBatch {
@@ -167,6 +188,9 @@ type Batch struct {
 	Pad   []string
 	// unary result column rendered as JSON
 	JSON string
+	// single "result" column, row 0, rendered canonically (see renderResult)
+	HasResult bool
+	Result    string
 	// log / error fields
 	Level   string
 	Message string
@@ -255,6 +279,10 @@ func DecodeBatch(rec arrow.RecordBatch) Batch {
 			if js, err := rec.MarshalJSON(); err == nil {
 				b.JSON = string(js)
 			}
+		}
+		if rec.NumCols() == 1 && rec.NumRows() == 1 && sc.Field(0).Name == "result" {
+			b.HasResult = true
+			b.Result = renderResult(rec.Column(0))
 		}
 	}
 	return b
